@@ -74,6 +74,9 @@ def gen_file(rng, tier, i, mode):
         allow.append("parentok")        # ( and ) as words of the token line
     continuous = fmt == "brackets"
     k = model.swarm_knobs(rng, tier, allow=allow, continuous=continuous)
+    if fmt in ("export", "tigerxml") and rng.random() < 0.2:
+        k["pos_paren"] = True
+        k["punct"], k["pair"] = max(k["punct"], 0.2), max(k["pair"], 0.15)
     if fmt == "brackets" and "parentok" in k["words"]:
         k["words"] = [w for w in k["words"] if w != "parentok"] + ["ascii"]
     if fmt in ("brackets", "discobrackets") and "paren" in k["words"]:
